@@ -37,6 +37,13 @@ def i128max : Nat := 2 ^ 127 - 1
 def clsEstimate := "C15.decimal_width_estimate"
 def clsUdlRound := "C15.udl_round_integer_with_fraction"
 def clsStaticPow2 := "C15.static_negative_power_of_two"
+def clsOctSep := "C15.octal_separator_after_prefix"
+
+/-- the class of `clsOctSep`: an octal token whose leading `0` is directly followed by a separator -/
+def octSep (cs : List Char) : Bool :=
+  match cs with
+  | '+' :: '0' :: '\'' :: _ | '-' :: '0' :: '\'' :: _ | '0' :: '\'' :: _ => true
+  | _ => false
 
 /-- `<type>:<rep>:<value>` -/
 def splitMade (res : String) : Option (Ty × String × Int) :=
@@ -64,12 +71,27 @@ def holdsExactly (res : String) (want : Rat) : Bool :=
     | some (d, e, x) =>
       Token.scaledValue v x e == want &&
       (match d with
-       | some d => v.natAbs < 2 ^ d
+       | some d => decide (-(2 ^ d : Int) ≤ v ∧ v < 2 ^ d)
        | none => match parseIntTy rep with
          | some it => it.inRange v
          | none => false)
     | none => false
   | none => false
+
+/-- `Cnl.C15.Located` as a Boolean: the scanner found base, sign, stride and exactly the digits of
+the grammar (the hypothesis of the `parse_exact_*_partial` theorems, evaluated on every token) -/
+def located (cs : List Char) (t : Token.Token) : Bool :=
+  match scanString cs with
+  | .ok p =>
+    ((p.base == 10 && p.stride == 18) || (p.base == 16 && p.stride == 15) || (p.base == 8 && p.stride == 21) || (p.base == 2 && p.stride == 63)) &&
+    p.isNegative == t.negative &&
+    t.body.digits.all (· < t.body.base) &&
+    -- a signed single-digit octal token is read as decimal by the code: same digits, same value
+    (p.base == t.body.base || (t.signed && t.body.base == 8 && t.body.digits.length == 1 && p.base == 10)) &&
+    (match readDigits p.base (cs.drop p.firstNumeral) p.numDigits with
+     | .ok (ds, _) => ds == t.body.digits || (t.body.base == 8 && p.base == 10 && ds == 0 :: t.body.digits)
+     | _ => false)
+  | _ => false
 
 def isPow2 (n : Nat) : Bool := n != 0 && 2 ^ n.log2 == n
 
@@ -86,13 +108,13 @@ def checkC15 (toks : List String) (res : String) : Option Verdict :=
       let nums := (res.splitOn " ").filterMap String.toNat?
       let ok : Bool := match nums with
         | [_, base, _, _, bits, digits, frac] =>
-          decide (sig < 2 ^ bits) &&
+          decide (sig < 2 ^ bits) && located cs t &&
           (t.signed || (base == t.body.base && digits == t.body.digits.length && frac == t.body.frac))
         | _ => false
       let short : Bool := match nums with
         | [_, _, _, _, bits, _, _] => t.body.base == 10 && decide (sig ≥ 2 ^ bits)
         | _ => false
-      some { model, spec := some ok, cls := if short then clsEstimate else "",
+      some { model, spec := some ok, cls := if octSep cs then clsOctSep else if short then clsEstimate else "",
              branch := s!"scan/base{t.body.base}" ++ (if t.body.hasPoint then "/frac" else "") }
   | ["parse", ty, tok] => do
     let (S, tyName) ← parseStorage ty
@@ -103,7 +125,7 @@ def checkC15 (toks : List String) (res : String) : Option Verdict :=
     | none => some { model, branch := "parse/malformed", nontrivial := false }
     | some t =>
       if t.isInteger && S.holds t.significand then
-        some { model, spec := some (res == s!"{tyName}:{t.significand}"),
+        some { model, spec := some (res == s!"{tyName}:{t.significand}"), cls := if octSep cs then clsOctSep else "",
                branch := s!"parse/base{t.body.base}/chunks{t.body.digits.length / (if t.body.base == 10 then 18 else if t.body.base == 16 then 15 else if t.body.base == 8 then 21 else 63)}" }
       else
         some { model, branch := if t.isInteger then "parse/does-not-fit" else "parse/fraction", nontrivial := false }
@@ -122,7 +144,7 @@ def checkC15 (toks : List String) (res : String) : Option Verdict :=
           let ok := res == s!"c(i128):{sig}:D{Token.bitLength sig}"
           let short := t.body.base == 10 && (match scanString cs with
             | .ok p => decide (sig ≥ 2 ^ p.numBits) | _ => false)
-          some { model, spec := some ok, cls := if short then clsEstimate else "", branch := "lit/c" }
+          some { model, spec := some ok, cls := if octSep cs then clsOctSep else if short then clsEstimate else "", branch := "lit/c" }
         else some { model, branch := "lit/c/unrepresentable", nontrivial := false }
       | none => some { model, branch := "lit/c/malformed", nontrivial := false }
     | "wide" =>
@@ -132,7 +154,7 @@ def checkC15 (toks : List String) (res : String) : Option Verdict :=
         if t.isInteger then
           let short := t.body.base == 10 && (match scanString cs with
             | .ok p => decide (t.significand.toNat ≥ 2 ^ p.numBits) | _ => false)
-          some { model, spec := some (holdsExactly res t.value), cls := if short then clsEstimate else "",
+          some { model, spec := some (holdsExactly res t.value), cls := if octSep cs then clsOctSep else if short then clsEstimate else "",
                  branch := "lit/wide/" ++ (match litWide cs with | .ok m => m.rep.name | _ => "rejected") }
         else some { model, branch := "lit/wide/fraction", nontrivial := false }
       | none => some { model, branch := "lit/wide/malformed", nontrivial := false }
@@ -149,7 +171,7 @@ def checkC15 (toks : List String) (res : String) : Option Verdict :=
             | .ok p => decide (sig ≥ 2 ^ p.numBits) | _ => false)
           let round := t.body.frac > 0 && sig % (t.body.base ^ t.body.frac * out) == 0 && sig != 0
           some { model, spec := some (holdsExactly res t.value),
-                 cls := if short then clsEstimate else if round then clsUdlRound else "",
+                 cls := if octSep cs then clsOctSep else if short then clsEstimate else if round then clsUdlRound else "",
                  branch := s!"lit/{kind}" ++ (if t.body.hasPoint then "/frac" else "") }
         else some { model, branch := s!"lit/{kind}/unrepresentable", nontrivial := false }
       | none => some { model, branch := s!"lit/{kind}/malformed", nontrivial := false }
